@@ -33,14 +33,16 @@ Record cfg := {
   use_lock : bool;           (* c931038: Start holds startMu from entry to return *)
   use_wcheck : bool;         (* c931038: Start rejects an id that has a registered waiter *)
   read_absent_empty : bool;  (* behaviour before 12fa98d: Read of an unknown id = empty plan, nil error (S5) *)
+  read_before_lock : bool;   (* a DIFFERENT ordering of Start, not the code's: store.Read before startMu.Lock, the
+                                snapshot is validated later under the lock (see the steps below) *)
   max_submit : Z             (* Plans.maxSubmit (default 30 min; WithMaxSubmit) *)
 }.
 
 Definition fixed (ms : Z) : cfg :=
-  {| use_lock := true; use_wcheck := true; read_absent_empty := false; max_submit := ms |}.
+  {| use_lock := true; use_wcheck := true; read_absent_empty := false; read_before_lock := false; max_submit := ms |}.
 (* the code before the fix commits *)
 Definition orig (ms : Z) : cfg :=
-  {| use_lock := false; use_wcheck := false; read_absent_empty := true; max_submit := ms |}.
+  {| use_lock := false; use_wcheck := false; read_absent_empty := true; read_before_lock := false; max_submit := ms |}.
 
 (* ---- what the store holds about a plan, projected to what Start looks at --------------------- *)
 Record pl := {
@@ -183,7 +185,8 @@ Definition step (c : cfg) (s : st) (l : label) : option (st * res) :=
       then Some ({| plans := plans s; next := next s; inprog := inprog s; now := now s + d |}, RNone)
       else None
   | LStartEnter id =>
-      if use_lock c && negb (is_nil (inprog s)) then None
+      (* with read_before_lock the call begins without the mutex (SLocked then only means "begun") *)
+      if negb (read_before_lock c) && use_lock c && negb (is_nil (inprog s)) then None
       else Some (with_inprog s (inprog s ++ [(id, SLocked)]), RNone)
   | LStartCheck k =>
       match nth_error (inprog s) k with
@@ -194,8 +197,7 @@ Definition step (c : cfg) (s : st) (l : label) : option (st * res) :=
       | _ => None
       end
   | LStartRead k =>
-      match nth_error (inprog s) k with
-      | Some (id, SChecked) =>
+      let read id :=
           match stored (get s id) with
           | None => Some (with_inprog s (remove_nth k (inprog s)),
                           if read_absent_empty c then RRejected else RNotFound)
@@ -203,13 +205,22 @@ Definition step (c : cfg) (s : st) (l : label) : option (st * res) :=
               if validate c (now s) p
               then Some (with_inprog s (replace_nth k (id, SValidated (now s)) (inprog s)), RNone)
               else Some (with_inprog s (remove_nth k (inprog s)), RRejected)
-          end
+          end in
+      match nth_error (inprog s) k with
+      | Some (id, SChecked) => read id
+      | Some (id, SLocked) =>
+          (* read_before_lock: the snapshot is taken first, outside the mutex (its verdict is fixed here; the
+             code of that ordering would announce a rejection only after taking the mutex - same class) *)
+          if read_before_lock c then read id else None
       | _ => None
       end
   | LStartLaunch k =>
       match nth_error (inprog s) k with
       | Some (id, SValidated _) =>
           let p := get s id in
+          (* read_before_lock: the locked region (waiter check, launch) runs here in one piece *)
+          if read_before_lock c && use_wcheck c && negb (is_wnone (waiter p))
+          then Some (with_inprog s (remove_nth k (inprog s)), RRejected) else
           Some (with_inprog
                   (set s id {| stored := stored p; waiter := WOpen; execs := S (execs p);
                                engines := engines p ++ [ESpawned] |})
